@@ -635,6 +635,171 @@ fn probe_rangeproof64(rng: &mut R, out: &mut Out, secp: &Secp256k1<All>) {
 }
 
 // ------------------------------------------------------------------------------------------------
+// an output whose asset commitment EQUALS a generator of the surjection domain
+
+#[derive(Clone, Copy, PartialEq, Debug)]
+enum EqIn { ConfInput, TwoConfInputs, TwoConfInputsCopySecond, ExplicitInput, ExplicitIssuance, ExplicitReissuance }
+#[derive(Clone, Copy, PartialEq, Debug)]
+enum EqProof { NoProof, Foreign, Own, ControlFreshAbf }
+
+/// An otherwise balanced transaction with a target output whose asset commitment is byte-identical to a
+/// domain generator: it re-uses the asset blinding factor of a confidential input of the same asset, or
+/// states the asset of an explicit input / explicit issuance as a commitment with ZERO blinding factor.
+/// Without a surjection proof, or with another output's proof, it is a confidential asset without a
+/// valid proof: must be rejected, naming that output.  libsecp refuses to MAKE a surjection proof when any
+/// input generator equals the output generator (`surjectionproof_generate` returns 0: the ring key would
+/// be zero), so no correct proof exists for these outputs (`Own`: counted as own_proof_cannot_be_made; if a
+/// library version ever makes one, only the K comparison applies).  The control is the same transaction
+/// with a FRESH asset blinding factor on the target and the proof the library makes for it: must verify.
+fn equal_generator_case(rng: &mut R, out: &mut Out, secp: &Secp256k1<All>, kind: EqIn, committed_value: bool, proof: EqProof) {
+    use elements::secp256k1_zkp::{PublicKey, ZERO_TWEAK};
+    use elements::{AssetIssuance, OutPoint, RangeProofMessage, Sequence, TxIn, TxInWitness, TxOutSecrets, Txid};
+    let name = format!("{:?}.{}.{:?}", kind, if committed_value { "committed_value" } else { "explicit_value" }, proof);
+    let zero_abf = AssetBlindingFactor::zero();
+    let zero_vbf = ValueBlindingFactor::zero();
+    let plain_in = |rng: &mut R| TxIn {
+        previous_output: OutPoint::new(Txid::from_byte_array(gen::arr32(rng)), rng.gen_range(0..5)), is_pegin: false, script_sig: Script::new(),
+        sequence: Sequence::MAX, asset_issuance: AssetIssuance::null(), witness: TxInWitness::empty(),
+    };
+    let explicit_utxo = |rng: &mut R, a: AssetId, v: u64| TxOut { asset: Asset::Explicit(a), value: Value::Explicit(v), nonce: Nonce::Null, script_pubkey: c04::addressable_script(rng), witness: TxOutWitness::default() };
+    let conf_utxo = |rng: &mut R, a: AssetId, v: u64, abf: AssetBlindingFactor, vbf: ValueBlindingFactor| TxOut {
+        asset: Asset::new_confidential(secp, a, abf), value: Value::new_confidential_from_assetid(secp, v, a, vbf, abf), nonce: Nonce::Null, script_pubkey: c04::addressable_script(rng), witness: TxOutWitness::default() };
+    let a = gen::asset_id(rng);
+    let total = rng.gen_range(1000..1_000_000u64);
+    let mut inputs = vec![];
+    let mut utxos = vec![];
+    let mut spent: Vec<TxOutSecrets> = vec![];
+    // (asset, abf) of the domain entry the target copies, and what is left over in other assets
+    let mut other_outs: Vec<(AssetId, u64)> = vec![];
+    let (t_asset, t_abf) = match kind {
+        EqIn::ConfInput | EqIn::TwoConfInputs | EqIn::TwoConfInputsCopySecond => {
+            // (libsecp proves through the FIRST input carrying the asset and refuses a zero blinding
+            // difference: a proof for the copied generator can be made only when the copy is of a later input)
+            let n = if kind == EqIn::ConfInput { 1 } else { 2 };
+            let mut first = None;
+            let parts = [total / 2, total - total / 2];
+            for k in 0..n {
+                let (abf, vbf) = (AssetBlindingFactor::new(rng), ValueBlindingFactor::new(rng));
+                let v = if n == 1 { total } else { parts[k] };
+                utxos.push(conf_utxo(rng, a, v, abf, vbf));
+                spent.push(TxOutSecrets::new(a, abf, v, vbf));
+                inputs.push(plain_in(rng));
+                if first.is_none() || kind == EqIn::TwoConfInputsCopySecond { first = Some(abf); }
+            }
+            (a, first.unwrap())
+        }
+        EqIn::ExplicitInput => {
+            utxos.push(explicit_utxo(rng, a, total));
+            spent.push(TxOutSecrets::new(a, zero_abf, total, zero_vbf));
+            inputs.push(plain_in(rng));
+            (a, zero_abf)
+        }
+        EqIn::ExplicitIssuance | EqIn::ExplicitReissuance => {
+            let b = gen::asset_id(rng);
+            let bv = rng.gen_range(10..1000u64);
+            utxos.push(explicit_utxo(rng, b, bv));
+            spent.push(TxOutSecrets::new(b, zero_abf, bv, zero_vbf));
+            other_outs.push((b, bv));
+            let mut inp = plain_in(rng);
+            inp.asset_issuance = AssetIssuance {
+                asset_blinding_nonce: if kind == EqIn::ExplicitReissuance { gen::tweak(rng) } else { ZERO_TWEAK },
+                asset_entropy: gen::arr32(rng), amount: Value::Explicit(total), inflation_keys: Value::Null,
+            };
+            let (x, _) = c04::oracle_ids(&inp);
+            spent.push(TxOutSecrets::new(x, zero_abf, total, zero_vbf));
+            inputs.push(inp);
+            (x, zero_abf)
+        }
+    };
+    let fee = rng.gen_range(1..100u64);
+    let v_t = rng.gen_range(1..(total - fee - 1));
+    let v_s = total - fee - v_t;
+    let t_vbf = if committed_value { ValueBlindingFactor::new(rng) } else { zero_vbf };
+    let t_abf = if proof == EqProof::ControlFreshAbf { AssetBlindingFactor::new(rng) } else { t_abf };
+    let t_sec = TxOutSecrets::new(t_asset, t_abf, v_t, t_vbf);
+    // the solver: an ordinary fully blinded output of the same asset with correct proofs
+    let s_abf = AssetBlindingFactor::new(rng);
+    let mut others = vec![t_sec, TxOutSecrets::new(t_asset, zero_abf, fee, zero_vbf)];
+    for (b, bv) in &other_outs { others.push(TxOutSecrets::new(*b, zero_abf, *bv, zero_vbf)); }
+    let s_vbf = ValueBlindingFactor::last(secp, v_s, s_abf, &spent.iter().map(|x| x.value_blind_inputs()).collect::<Vec<_>>(), &others.iter().map(|x| x.value_blind_inputs()).collect::<Vec<_>>());
+    let rsk = gen::seckey(rng);
+    let mut prng = R::clone(rng);
+    let solver = match catch_unwind(AssertUnwindSafe(|| TxOut::with_txout_secrets(&mut prng, secp, c04::addressable_script(rng), PublicKey::from_secret_key(secp, &rsk), gen::seckey(rng), TxOutSecrets::new(t_asset, s_abf, v_s, s_vbf), &spent))) {
+        Ok(Ok(o)) => o,
+        _ => { out.count(&format!("equal_generator.{}.solver_not_built", name)); return; }
+    };
+    // the target
+    let spk = c04::addressable_script(rng);
+    let t_gen_asset = Asset::new_confidential(secp, t_asset, t_abf);
+    let (t_value, t_rp) = if committed_value {
+        match Value::Explicit(v_t).blind_with_shared_secret(secp, t_vbf, gen::seckey(rng), &spk, &RangeProofMessage::new(t_asset, t_abf)) {
+            Ok((v, rp)) => (v, Some(Box::new(rp))),
+            Err(_) => { out.count(&format!("equal_generator.{}.rangeproof_not_built", name)); return; }
+        }
+    } else {
+        (Value::Explicit(v_t), None)
+    };
+    let t_sp = match proof {
+        EqProof::NoProof => None,
+        EqProof::Foreign => solver.witness.surjection_proof.clone(),
+        EqProof::Own | EqProof::ControlFreshAbf => {
+            let dom: Vec<_> = spent.iter().map(|x| x.surjection_inputs(secp)).collect();
+            let mut made = None;
+            for _ in 0..8 {
+                let mut prng = R::clone(rng);
+                let _: u64 = rng.gen();
+                if let Ok(Ok(p)) = catch_unwind(AssertUnwindSafe(|| SurjectionProof::new(secp, &mut prng, t_asset.into_tag(), t_abf.into_inner(), &dom))) { made = Some(Box::new(p)); break; }
+            }
+            if made.is_none() { out.count(&format!("equal_generator.{}.own_proof_cannot_be_made", name)); return; }
+            made
+        }
+    };
+    let target = TxOut { asset: t_gen_asset, value: t_value, nonce: Nonce::Null, script_pubkey: spk, witness: TxOutWitness { surjection_proof: t_sp, rangeproof: t_rp } };
+    let mut output = vec![solver, TxOut { asset: Asset::Explicit(t_asset), value: Value::Explicit(fee), nonce: Nonce::Null, script_pubkey: Script::new(), witness: TxOutWitness::default() }];
+    for (b, bv) in &other_outs { output.push(explicit_utxo(rng, *b, *bv)); }
+    let t = rng.gen_range(0..=output.len());
+    output.insert(t, target);
+    let tx = Transaction { version: 2, lock_time: LockTime::ZERO, input: inputs, output };
+    // the shape is what it claims to be: the target's generator is in the domain the harness derives
+    let (dom, _) = domain_and_commits(secp, &tx, &utxos);
+    let in_domain = match (&dom, tx.output[t].asset) { (Some(d), Asset::Confidential(g)) => d.contains(&g), _ => false };
+    out.s("equal_generator_shape_built", in_domain == (proof != EqProof::ControlFreshAbf), || format!("{} {}", name, det(&tx, &utxos)));
+    let real = decide_case(out, secp, &tx, &utxos);
+    out.count(&format!("equal_generator.{}", name));
+    out.count(&format!("equal_generator.verdict.{:?}.{}", proof, real.split(' ').take(2).collect::<Vec<_>>().join("_")));
+    let d = || format!("{} target output {} {} -> {}", name, t, det(&tx, &utxos), real);
+    match proof {
+        EqProof::NoProof => {
+            out.s("equal_generator_without_proof_never_passes", real.starts_with("err"), &d);
+            out.s("equal_generator_without_proof_names_the_output", real == format!("err SurjectionProofMissing {}", t), &d);
+        }
+        EqProof::Foreign => {
+            out.s("equal_generator_with_foreign_proof_never_passes", real.starts_with("err"), &d);
+            out.s("equal_generator_with_foreign_proof_names_the_output", real == format!("err SurjectionProofVerificationError {}", t), &d);
+        }
+        EqProof::Own => {
+            // (not reached with the pinned libsecp: it refuses to make such a proof; K comparison only)
+            out.count("equal_generator.own_proof_was_made");
+        }
+        EqProof::ControlFreshAbf => {
+            out.s("equal_generator_control_fresh_abf_verifies", real == "ok", &d);
+        }
+    }
+}
+
+fn equal_generator_cases(rng: &mut R, out: &mut Out, secp: &Secp256k1<All>, rounds: usize) {
+    for _ in 0..rounds {
+        for kind in [EqIn::ConfInput, EqIn::TwoConfInputs, EqIn::TwoConfInputsCopySecond, EqIn::ExplicitInput, EqIn::ExplicitIssuance, EqIn::ExplicitReissuance] {
+            for committed in [true, false] {
+                for proof in [EqProof::NoProof, EqProof::Foreign, EqProof::Own, EqProof::ControlFreshAbf] {
+                    equal_generator_case(rng, out, secp, kind, committed, proof);
+                }
+            }
+        }
+    }
+}
+
+// ------------------------------------------------------------------------------------------------
 // the repository's vectors
 
 fn between<'a>(s: &'a str, after: &str, open: &str, close: char) -> Option<&'a str> {
@@ -734,6 +899,8 @@ pub fn run(rng: &mut R, out: &mut Out) {
     }
     eprintln!("c05: exact proofs {:?} ({} ops)", t0.elapsed(), out.k.len());
     probe_rangeproof64(rng, out, &secp);
+    equal_generator_cases(rng, out, &secp, if thorough { 20 } else { 2 });
+    eprintln!("c05: equal generator {:?} ({} ops)", t0.elapsed(), out.k.len());
     // verifying transactions with partially blinded inputs and outputs over the whole lattice (amount-only,
     // asset-only, zero-value OP_RETURN with a blinded asset, confidential issuances), each tampered
     let n_lat = if thorough { 150 } else { 6 };
@@ -756,7 +923,9 @@ pub fn run(rng: &mut R, out: &mut Out) {
     let n_tx = if thorough { 250 } else { 6 };
     let mut done = 0;
     let mut round = 0;
-    while done < n_tx {
+    // (quick tier: also bounded by the number of ops, big transactions have hundreds of tamper positions)
+    let stage_start = out.k.len();
+    while done < n_tx && (thorough || done < 3 || out.k.len() - stage_start < 650) {
         round += 1;
         let sh = Shape {
             n_in: if round <= 6 { round } else { rng.gen_range(1..=6) },
